@@ -38,6 +38,11 @@ SPECIAL = [([2_000_000_000], [2_000_000_003]), ([-2_000_000_003], [-2_000_000_00
 def gen_cases(seed, tier):
     dims = [1, 2, 3] if tier == "quick" else [1, 2, 3, 4]
     cases = [dict(dim=0, shard=0, nshards=1, devices=1)]      # boxes with large offsets / 5-6 dimensions
+    # 64-bit mode NOT enabled in the worker (the state every problem built before its solver is constructed in):
+    # the small 1-D boxes again, and every 1-D width up to 300 plus offsets / a second column (dim = -1)
+    cases.append(dict(dim=1, shard=0, nshards=1, devices=1, no_x64=True))
+    for sh in range(16):
+        cases.append(dict(dim=-1, shard=sh, nshards=16, devices=1, no_x64=True))
     for d in dims:
         nsh = 1 if d == 1 else NSH
         for sh in range(nsh):
@@ -55,8 +60,13 @@ def run_case(case):
     d = case["dim"]
     per_dim = [(m, w) for m in MINS for w in WIDTHS]
     n_box = n_nontriv = n_vec = 0
-    boxes = (itertools.product(per_dim, repeat=d) if d > 0 else
-             [tuple((lo, hi - lo) for lo, hi in zip(a, b)) for a, b in SPECIAL])
+    if d == -1:
+        wide = [((0, w),) for w in range(1, 301)] + [((lo, w),) for lo in (1, -5) for w in range(38, 131)] \
+            + [((0, w), (0, 1)) for w in range(38, 131, 3)]
+        boxes = wide
+    else:
+        boxes = (itertools.product(per_dim, repeat=d) if d > 0 else
+                 [tuple((lo, hi - lo) for lo, hi in zip(a, b)) for a, b in SPECIAL])
     for k, combo in enumerate(boxes):
         if k % case["nshards"] != case["shard"]:
             continue
@@ -142,7 +152,14 @@ def run_case(case):
         n_vec += len(infl) + len(ref)
         if (mins != 0).any() or (maxs == mins).any():
             n_nontriv += 1
-    return dict(status="ok", n_obs=n_box, distinct=n_nontriv, vectors=n_vec, cls=[f"dim{case['dim']}", case["shard"]])
+    tag = f"dim{case['dim']}" if case["dim"] >= 0 else "wide"
+    if case.get("no_x64"):
+        import jax as _j
+
+        if _j.config.jax_enable_x64:
+            return dict(status="error", detail="harness: 64-bit mode is on in a no_x64 worker")
+        tag += "-x64off"
+    return dict(status="ok", n_obs=n_box, distinct=n_nontriv, vectors=n_vec, cls=[tag, case["shard"]])
 
 
 def aggregate(records, cases):
@@ -162,4 +179,6 @@ def coverage_check(records, cases, tier):
     for d in dims:
         if per.get(f"dim{d}", 0) != 28 ** d:
             return f"dimension {d}: {per.get(f'dim{d}', 0)} of {28 ** d} boxes enumerated"
+    if per.get("dim1-x64off", 0) != 28 or per.get("wide-x64off", 0) < 500:
+        return f"boxes without 64-bit mode: {per.get('dim1-x64off', 0)} small, {per.get('wide-x64off', 0)} wide"
     return None
